@@ -399,3 +399,116 @@ let perturb_type (r : Rng.t) (s : src) : src =
       | SNeg a -> SNeg (go a)
       | SIf (c, a, b) -> let c' = go c in let a' = go a in SIf (c', a', go b) in
   go s
+
+(* ------------------------------------------------------------------------------------------
+   Meaning-preserving rewrites (C19). *)
+let rec free_names (s : src) : string list =
+  match s with
+  | SVar x -> [ x ]
+  | SLit _ | STrue | SFalse | SType | SInt | SBool | SHole -> []
+  | SLam (x, _, an, b) -> (match an with Some a -> free_names a | None -> []) @ List.filter (fun y -> y <> x) (free_names b)
+  | SPi (x, _, a, b) -> free_names a @ List.filter (fun y -> y <> x) (free_names b)
+  | SArrow (a, b) | SApp (a, b) | SBin (_, a, b) -> free_names a @ free_names b
+  | SLet (ds, b) ->
+    let names = List.map (fun (x, _, _) -> x) ds in
+    List.filter (fun y -> not (List.mem y names))
+      (List.concat_map (fun (_, an, d) -> (match an with Some a -> free_names a | None -> []) @ free_names d) ds @ free_names b)
+  | SNeg a -> free_names a
+  | SIf (c, a, b) -> free_names c @ free_names a @ free_names b
+
+(* print with redundant parentheses around a third of the operands (atoms included) *)
+let to_string_parens (r : Rng.t) (s : src) : string =
+  let b = Buffer.create 256 in
+  let p = Buffer.add_string b in
+  let rec pr (s : src) : unit =
+    let op x = if atomic x && not (Rng.chance r 1 3) then pr x else (p "("; if Rng.chance r 1 6 then (p "("; pr x; p ")") else pr x; p ")") in
+    let jumbo a = (match a with SLet _ -> (p "("; pr a; p ")") | _ -> if Rng.chance r 1 4 then (p "("; pr a; p ")") else pr a) in
+    let body x = if Rng.chance r 1 5 then (p "("; pr x; p ")") else pr x in
+    match s with
+    | SVar x -> p x | SLit z -> p z | STrue -> p "true" | SFalse -> p "false" | SType -> p "type"
+    | SInt -> p "int" | SBool -> p "bool" | SHole -> p "_"
+    | SLam (x, im, None, bd) -> if im then (p "{"; p x; p "} => ") else (p x; p " => "); body bd
+    | SLam (x, im, Some a, bd) -> p (if im then "{" else "("); p x; p " : "; jumbo a; p (if im then "} => " else ") => "); body bd
+    | SPi (x, im, a, c) -> p (if im then "{" else "("); p x; p " : "; jumbo a; p (if im then "} -> " else ") -> "); body c
+    | SArrow (a, c) -> op a; p " -> "; body c
+    | SApp (f, x) -> (match f with SApp _ when not (Rng.chance r 1 4) -> pr f | _ -> op f); p " "; op x
+    | SLet (ds, bd) ->
+      List.iter (fun (x, an, d) -> p x; (match an with Some a -> (p " : "; op a) | None -> ()); p " = "; body d; p "; ") ds;
+      pr bd
+    | SNeg x -> p "-"; op x
+    | SBin (o, x, y) -> op x; p " "; p o; p " "; op y
+    | SIf (c, x, y) -> p "if "; body c; p " then "; body x; p " else "; body y in
+  if Rng.chance r 1 3 then (p "("; pr s; p ")") else pr s;
+  Buffer.contents b
+
+(* apply f to the k-th (pre-order) expression position that is not a type annotation *)
+let rewrite_at (s : src) (target : int) (f : src -> src) : src =
+  let k = ref (-1) in
+  let rec go (s : src) : src =
+    incr k;
+    if !k = target then f s
+    else match s with
+      | SVar _ | SLit _ | STrue | SFalse | SType | SInt | SBool | SHole -> s
+      | SLam (x, im, an, b) -> SLam (x, im, an, go b)
+      | SPi _ | SArrow _ -> s
+      | SApp (a, b) -> let a' = go a in SApp (a', go b)
+      | SBin (o, a, b) -> let a' = go a in SBin (o, a', go b)
+      | SLet (ds, b) ->
+        (* the right-hand side of a function definition must stay a syntactic value (recursive and forward
+           references are only available to values): such a root is not a rewrite site, its inside is *)
+        let ds' = List.map (fun (x, an, d) -> (x, an, (match d with SLam (y, im, a, bd) -> SLam (y, im, a, go bd) | _ -> go d))) ds in
+        SLet (ds', go b)
+      | SNeg a -> SNeg (go a)
+      | SIf (c, a, b) -> let c' = go c in let a' = go a in SIf (c', a', go b) in
+  go s
+
+let rec count_positions (s : src) : int =
+  match s with
+  | SVar _ | SLit _ | STrue | SFalse | SType | SInt | SBool | SHole | SPi _ | SArrow _ -> 1
+  | SLam (_, _, _, b) -> 1 + count_positions b
+  | SApp (a, b) | SBin (_, a, b) -> 1 + count_positions a + count_positions b
+  | SLet (ds, b) ->
+    1 + List.fold_left (fun acc (_, _, d) -> acc + (match d with SLam (_, _, _, bd) -> count_positions bd | _ -> count_positions d)) 0 ds + count_positions b
+  | SNeg a -> 1 + count_positions a
+  | SIf (c, a, b) -> 1 + count_positions c + count_positions a + count_positions b
+
+(* swap two adjacent independent function definitions of some group *)
+let rec reorder (r : Rng.t) (s : src) : src =
+  match s with
+  | SLet (ds, b) ->
+    let is_fun (_, an, d) = (match d, an with SLam (_, _, Some _, _), Some _ -> true | _ -> false) in
+    let rec swap = function
+      | ((x1, _, d1) as e1) :: ((x2, _, d2) as e2) :: rest
+        when is_fun e1 && is_fun e2 && not (List.mem x2 (free_names d1)) && not (List.mem x1 (free_names d2)) && Rng.bool r ->
+        e2 :: e1 :: rest
+      | e :: rest -> e :: swap rest
+      | [] -> [] in
+    SLet (swap (List.map (fun (x, an, d) -> (x, an, reorder r d)) ds), reorder r b)
+  | SLam (x, im, an, b) -> SLam (x, im, an, reorder r b)
+  | SApp (a, b) -> SApp (reorder r a, reorder r b)
+  | SBin (o, a, b) -> SBin (o, reorder r a, reorder r b)
+  | SNeg a -> SNeg (reorder r a)
+  | SIf (c, a, b) -> SIf (reorder r c, reorder r a, reorder r b)
+  | _ -> s
+
+type rewrite = Rename | Parens | Unused | IfTrue | Identity | Reorder | NameGround
+
+let apply_rewrite (r : Rng.t) (e : env) (top : ty) (s : src) (w : rewrite) : src * string option =
+  (* returns the rewritten AST, or a ready-made text for the print-level rewrite *)
+  let pos () = Rng.int r (max 1 (count_positions s)) in
+  match w with
+  | Rename -> (rename r [] [] s, None)
+  | Parens -> (s, Some (to_string_parens r s))
+  | Unused ->
+    let u = fresh_name e "u" in
+    let d = Rng.pick r [ SLit "7"; STrue; SBin ("+", SLit "1", SLit "2"); SLam (fresh_name e "ux", false, Some SInt, SLit "0"); SInt ] in
+    (rewrite_at s (pos ()) (fun x -> SLet ([ (u, None, d) ], x)), None)
+  | IfTrue -> (rewrite_at s (pos ()) (fun x -> SIf (STrue, x, x)), None)
+  | Identity -> let w = fresh_name e "w" in (SApp (SLam (w, false, Some (src_of_ty top), SVar w), s), None)
+  | Reorder -> (reorder r s, None)
+  | NameGround ->
+    (* name an arithmetic / comparison subexpression (whose type mentions no hole) with a definition *)
+    let n = fresh_name e "nm" in
+    (rewrite_at s (pos ()) (fun x -> match x with
+         | SBin _ | SLit _ | SNeg _ | STrue | SFalse -> SLet ([ (n, None, x) ], SVar n)
+         | _ -> x), None)
